@@ -284,3 +284,46 @@ func DiffState(ms ModelState, srv *impl.Srv, shift int64) string {
 
 // T0 of the model; the walker passes shift = realNow - T0, so T0 itself is needed to make deadlines relative.
 var ModelT0 int64 = 1000
+
+// StructureOK evaluates the implementation-level structural invariants on the whole keyspace (no model needed):
+// list links vs cached length, sorted-set AVL shape / len / dict, stream id list vs entry map, no deadline recorded
+// for a missing key, key counter = stored keys. "" = all hold.
+func StructureOK(srv *impl.Srv) string {
+	db := srv.Mgr.DBs[0]
+	dump := memdb.VerifDump(db)
+	keys := map[string]bool{}
+	for _, v := range dump {
+		keys[v.Key] = true
+		switch v.Type {
+		case "list":
+			if !v.ListFwdOK || !v.ListBckOK || len(v.ListFwd) != v.ListLen || len(v.ListBack) != v.ListLen {
+				return fmt.Sprintf("list %q: Len=%d forward walk=%d backward walk=%d (sentinels reached: %v %v)", v.Key, v.ListLen, len(v.ListFwd), len(v.ListBack), v.ListFwdOK, v.ListBckOK)
+			}
+			if v.ListLen == 0 {
+				return fmt.Sprintf("list %q is empty but still stored", v.Key)
+			}
+			for i := range v.ListFwd {
+				if !bytes.Equal(v.ListFwd[i], v.ListBack[len(v.ListBack)-1-i]) {
+					return fmt.Sprintf("list %q forward and backward walks differ at %d", v.Key, i)
+				}
+			}
+		case "zset":
+			if s := checkZTree(v); s != "" {
+				return "zset " + strconv.Quote(v.Key) + ": " + s
+			}
+		case "stream":
+			if v.StreamMapLen != len(v.StreamIDs) {
+				return fmt.Sprintf("stream %q has %d ids but %d map entries", v.Key, len(v.StreamIDs), v.StreamMapLen)
+			}
+		}
+	}
+	for k := range memdb.VerifTTLKeys(db) {
+		if !keys[k] {
+			return fmt.Sprintf("deadline recorded for missing key %q", k)
+		}
+	}
+	if n := memdb.VerifKeyCount(db); n != int64(len(dump)) {
+		return fmt.Sprintf("key counter %d but %d keys stored", n, len(dump))
+	}
+	return ""
+}
